@@ -480,6 +480,56 @@ type half struct { // data flowing towards one reader
 	writable  chan struct{}
 	total     int64 // bytes ever written in this direction
 	delivered int64
+	consumed  int64 // bytes handed to the reader's Read calls
+	queue     []frag
+	marks     []*Mark
+}
+
+// Mark records when the reader of a direction has consumed the stream up to an offset.
+type Mark struct {
+	h    *half
+	Off  int64
+	at   time.Duration
+	done bool
+}
+
+// Consumed reports whether (and when) the reader has read past the mark.
+func (m *Mark) Consumed() (time.Duration, bool) {
+	m.h.mu.Lock()
+	defer m.h.mu.Unlock()
+	return m.at, m.done
+}
+
+// MarkWritten returns a mark at the current end of what `side` has written so far.
+func (p *Pair) MarkWritten(side int) *Mark {
+	c := p.A
+	if side == 1 {
+		c = p.B
+	}
+	h := c.out
+	h.mu.Lock()
+	defer h.mu.Unlock()
+	m := &Mark{h: h, Off: h.total}
+	if h.consumed >= m.Off {
+		m.done, m.at = true, simrt.Now()
+	} else {
+		h.marks = append(h.marks, m)
+	}
+	return m
+}
+
+// SimPair exposes the pair and side of a simulated TCP connection.
+func (c *tcpConn) SimPair() (*Pair, int) { return c.pair, c.side }
+
+// Consumed returns how many bytes written by `side` the other end has read.
+func (p *Pair) Consumed(side int) int64 {
+	c := p.A
+	if side == 1 {
+		c = p.B
+	}
+	c.out.mu.Lock()
+	defer c.out.mu.Unlock()
+	return c.out.consumed
 }
 
 func newHalf() *half {
@@ -674,6 +724,18 @@ func (c *tcpConn) Read(p []byte) (int, error) {
 			}
 			copy(p, h.buf[:n])
 			h.buf = h.buf[n:]
+			h.consumed += int64(n)
+			if len(h.marks) > 0 {
+				keep := h.marks[:0]
+				for _, m := range h.marks {
+					if h.consumed >= m.Off {
+						m.done, m.at = true, simrt.Now()
+					} else {
+						keep = append(keep, m)
+					}
+				}
+				h.marks = keep
+			}
 			more := len(h.buf) > 0
 			h.mu.Unlock()
 			if more {
@@ -792,31 +854,53 @@ func (c *tcpConn) send(b []byte) {
 	}
 }
 
-func (c *tcpConn) deliverAt(d time.Duration, frag []byte) {
+type frag struct {
+	arr  time.Duration
+	data []byte
+}
+
+// deliverAt queues a fragment for arrival after d. Fragments of one direction arrive in
+// FIFO order whatever order their timers fire in (equal deadlines fire in seeded-random order).
+func (c *tcpConn) deliverAt(d time.Duration, fr []byte) {
 	h := c.out
-	time.AfterFunc(d, func() {
-		p := c.pair
-		// partition or late stall: hold and retry
-		if p.n.partitioned(p.HostA.IP, p.HostB.IP) {
-			c.deliverAt(200*time.Millisecond, frag)
-			return
-		}
-		p.mu.Lock()
-		st := p.stallTill[c.side]
-		p.mu.Unlock()
-		if now := simrt.Now(); now < st {
-			c.deliverAt(st-now, frag)
-			return
-		}
-		h.mu.Lock()
-		h.inflight -= len(frag)
+	h.mu.Lock()
+	h.queue = append(h.queue, frag{arr: simrt.Now() + d, data: fr})
+	h.mu.Unlock()
+	time.AfterFunc(d, c.pump)
+}
+
+// pump moves every queued fragment whose arrival time has come into the readable buffer.
+func (c *tcpConn) pump() {
+	h := c.out
+	p := c.pair
+	now := simrt.Now()
+	if p.n.partitioned(p.HostA.IP, p.HostB.IP) {
+		time.AfterFunc(200*time.Millisecond, c.pump)
+		return
+	}
+	p.mu.Lock()
+	st := p.stallTill[c.side]
+	p.mu.Unlock()
+	if now < st {
+		time.AfterFunc(st-now, c.pump)
+		return
+	}
+	h.mu.Lock()
+	moved := false
+	for len(h.queue) > 0 && h.queue[0].arr <= now {
+		fr := h.queue[0]
+		h.queue = h.queue[1:]
+		h.inflight -= len(fr.data)
 		if h.reset == nil && !h.rclosed {
-			h.buf = append(h.buf, frag...)
-			h.delivered += int64(len(frag))
+			h.buf = append(h.buf, fr.data...)
+			h.delivered += int64(len(fr.data))
 		}
-		h.mu.Unlock()
+		moved = true
+	}
+	h.mu.Unlock()
+	if moved {
 		notify(h.readable)
-	})
+	}
 }
 
 func fragSize(r *simrt.Rand, mode, n int) int {
